@@ -258,15 +258,45 @@ func runC13(c *Ctx) {
 		c.Anchor("C13.2", fname(fn))
 		num := cs.Common().Args[2]
 		nb, nf, isL := fieldLoad(num)
-		g := w.guardedBy(cs, okFn, -1, "true", func(g *ssa.Call) bool { return isL && nm(nf) == "number" && w.sameKey(g.Call.Args[0], nb) })
+		g := w.guardedBy(cs, okFn, -1, "true", func(g *ssa.Call) bool {
+			if !isL || nm(nf) != "number" {
+				return false
+			}
+			if w.sameKey(g.Call.Args[0], nb) {
+				return true
+			}
+			// the binding may be result #0 of a helper (route()) whose own value was tested
+			ob, _, _ := w.originAt(nb, cs)
+			return ob != nb && (ob == g.Call.Args[0] || w.key(ob) == w.key(g.Call.Args[0]))
+		})
 		if g == nil {
 			c.Bad("C13.2", fname(fn), "sendChannelData", w.instrPos(cs), "ChannelData is sent without the binding being confirmed (bound.ok()) for the number used", w.factsDesc(cs)...)
 			continue
 		}
 		okSrc := true
-		for _, l := range liveLeaves(nb) {
+		isAddr := func(v ssa.Value, at ssa.Instruction) bool {
+			if w.sameKey(v, addr) {
+				return true
+			}
+			// through a by-value context struct (udpWrite{peer: addr}): every source is addr
+			ls, complete := w.sources(v, at, nil)
+			if !complete || len(ls) == 0 {
+				return false
+			}
+			for i := range ls {
+				if len(ls[i].sel) > 0 || ls[i].mem != nil || !(ls[i].val == ssa.Value(addr) || w.sameKey(ls[i].outer(w, ls[i].val), addr)) {
+					return false
+				}
+			}
+			return true
+		}
+		leaves, complete := w.deepLeaves(nb, func(h *ssa.Function) bool { return h == findByAddr || h == create }, 3)
+		if !complete || len(leaves) == 0 {
+			okSrc = false
+		}
+		for _, l := range leaves {
 			lc, _ := callOf(l)
-			if lc == nil || !(lc.Call.StaticCallee() == findByAddr || lc.Call.StaticCallee() == create) || !w.sameKey(lc.Call.Args[1], addr) {
+			if lc == nil || !(lc.Call.StaticCallee() == findByAddr || lc.Call.StaticCallee() == create) || !isAddr(lc.Call.Args[1], lc) {
 				okSrc = false
 			}
 		}
